@@ -41,9 +41,12 @@ from .symexec import (
 def do_call(ex, st, e):
     ctx = ex.ctx
     # super-special forms that must not evaluate their arguments eagerly
-    if isinstance(e.func, ast.Name) and e.func.id in ("forall", "exists", "old", "at_entry") and e.func.id not in st.env:
+    if isinstance(e.func, ast.Name) and e.func.id in ("forall", "exists", "old", "at_entry", "apply_forall") and e.func.id not in st.env:
         return ghost_call(ex, st, e.func.id, e)
     f = ex.ev(st, e.func)
+    if f.k == "ref" and str(f.x) in getattr(ex.reg, "opaque_call_hooks", {}):
+        args = [ex.ev(st, a) for a in e.args]
+        return ex.reg.opaque_call_hooks[str(f.x)](ex, st, f, args, e)
     if f.k != "conc":
         raise Unsupported("call of non-constant callee", e)
     o = f.z
@@ -109,13 +112,65 @@ def ghost_call(ex, st, name, e):
             raise Unsupported("old() outside a contract", e)
         tmp = fr.old_state.fork()
         tmp.pc = list(st.pc)
-        # names in old() are parameters (entry values)
+        # names in old() are parameters (entry values); quantifier-bound and ghost names keep their current meaning
+        for k, v in st.env.items():
+            if k not in tmp.env:
+                tmp.env[k] = v
+                tmp.defd[k] = z3.BoolVal(True)
         saved = ctx.spec_mode
         ctx.spec_mode = True
         try:
             return ex.ev(tmp, e.args[0])
         finally:
             ctx.spec_mode = saved
+    if name == "apply_forall":
+        # apply_forall(lemma, lambda m: (arg, ...), trigger=lambda m: term): the universally quantified statement of an
+        # already proved lemma (requires ==> ensures for all m) is added as a fact
+        lemv = ex.ev(st, e.args[0])
+        lem = lemv.z
+        if not isinstance(lem, LemmaSrc):
+            raise Unsupported("apply_forall needs a lemma", e)
+        if ctx.current_lemma is lem:
+            raise Unsupported("apply_forall of the lemma being proved would be circular", e)
+        lam = e.args[1]
+        bnames = [a.arg for a in lam.args.args]
+        bvars = [ctx.fresh("q_" + n) for n in bnames]
+        tmp = st.fork()
+        for n, v in zip(bnames, bvars):
+            tmp.env[n] = mk_int(v)
+            tmp.defd[n] = z3.BoolVal(True)
+        saved = ctx.spec_mode
+        ctx.spec_mode = True
+        try:
+            argt = ex.ev(tmp, lam.body)
+            if argt.k != "tuple" or len(argt.z) != len(lem.params):
+                raise Unsupported("apply_forall: the lambda must return the lemma's argument tuple", e)
+            inner = st.fork()
+            inner.env = {pn: a for (pn, _), a in zip(lem.params, argt.z)}
+            inner.defd = {k: z3.BoolVal(True) for k in inner.env}
+            fr = Frame("lemma-forall:" + lem.name, lem.modname)
+            fr.locals_assigned = set()
+            fr.sidecar_globals = lem.sidecar_globals
+            fr.loop_ordinals = {}
+            fr.invariants = {}
+            fr.old_state = None
+            ctx.frames.append(fr)
+            try:
+                reqs = [ex.ev_spec(inner, r) for r in lem.requires]
+                enss = [ex.ev_spec(inner, q) for q in lem.ensures]
+            finally:
+                ctx.frames.pop()
+            pats = []
+            for k in e.keywords:
+                if k.arg == "trigger":
+                    tv = ex.ev(tmp, k.value.body)
+                    pats.append(tv.z)
+        finally:
+            ctx.spec_mode = saved
+        body = z3.Implies(z3.And(*reqs) if reqs else z3.BoolVal(True), z3.And(*enss) if enss else z3.BoolVal(True))
+        ctx.assume(st, z3.ForAll(bvars, body, patterns=pats) if pats else z3.ForAll(bvars, body))
+        ctx.lemma_deps.add(lem.name)
+        return NONE
     if name in ("forall", "exists"):
         # forall(lo, hi, lambda j: body [, trigger=lambda j: term])  /  forall(lambda j: body)
         args = list(e.args)
@@ -170,6 +225,11 @@ def ghost_call(ex, st, name, e):
         return mk_int(ctx.field_array(st, "len", AII)[args[0].z])
     if name == "field":
         return ex.load_field(st, args[0], args[1].x, e)
+    if name == "gval":
+        from .ext import AIAA
+
+        g = ctx.field_array(st, "g_val", AIAA)[args[0].z]
+        return mk_int(g[as_int(ctx, st, args[1], e)][as_int(ctx, st, args[2], e)])
     if name in ("lo_has", "lo_row", "lo_get", "gheight", "gwidth"):
         from .ext import ORIENTS, lo_arrays
 
@@ -716,6 +776,9 @@ def eval_modifies(ex, st, contract, env, with_cond=False):
             elif isinstance(node, ast.Call) and isinstance(node.func, ast.Name) and node.func.id == "lomap":
                 base = ex.ev(tmp, node.args[0])
                 items.extend([(base.z, "lo_row"), (base.z, "lo_has"), (base.z, "lo_val")])
+            elif isinstance(node, ast.Call) and isinstance(node.func, ast.Name) and node.func.id == "gshape":
+                base = ex.ev(tmp, node.args[0])
+                items.extend([(base.z, "g_h"), (base.z, "g_w"), (base.z, "g_val")])
             elif isinstance(node, ast.Call) and isinstance(node.func, ast.Name) and node.func.id == "all_grids":
                 items.append((None, "g_val"))  # contents of 2-D arrays (never their shapes)
             else:
@@ -750,10 +813,13 @@ def contract_call(ex, st, contract, args, kwargs, e):
             kwargs[pn] = mk_ref(ctx.fresh("default_" + pn), contract.args[pn])
     env = bind_params(ex, st, fsrc.params(), fsrc.module, args, kwargs, e, contract.fq, vararg=va)
     env.pop(va, None)
-    # coerce concrete constants
+    # coerce concrete constants (a constant tuple/list passed where the contract expects a list becomes a fresh list)
     for k in list(env):
         if env[k].k == "conc":
-            env[k] = lift_conc(ctx, env[k], e)
+            if isinstance(env[k].z, (tuple, list)) and str(contract.args.get(k, "")).startswith("list"):
+                env[k] = ex.alloc_list(st, [lift_conc(ctx, mk_conc(x), e) for x in env[k].z], e)
+            else:
+                env[k] = lift_conc(ctx, env[k], e)
     old = st.fork()
     old.env = dict(env)
     old.defd = {k: z3.BoolVal(True) for k in env}
